@@ -18,7 +18,8 @@ MANIFEST_ENTRY = {
             "calls for present), whose cells hold at most one action and whose expected terminals are never "
             "lexically ambiguous on the input, the driver accepts EXACTLY the sentences "
             "(C04_exact_when_deterministic; simulation of the derivation by the abstract LR machine, then by the "
-            "driver with its scanner). Every implementation table is checked with Table.wf; every deterministic "
+            "driver with its scanner), its tree has the shape of every parse tree and any two parse trees have the "
+            "same shape -- the grammar is unambiguous there (C04_unambiguous_when_deterministic). Every implementation table is checked with Table.wf; every deterministic "
             "strategy-free table is run through the validator with the implementation's own item sets and FIRST "
             "sets, and detTableB/lexDetB are evaluated per table and input; the model driver is run against "
             "Parser.parse on the same table/input (outcome, tree, error position); the chart oracle and the tree "
@@ -27,8 +28,8 @@ MANIFEST_ENTRY = {
             "correspondence; recognizers and layout skipping enter as data (match table, skip table computed by the "
             "real code); the theorem's side conditions on the decoded data (table empty beyond its n states, matches "
             "inside the text) are theorems about the driver's decoder (Model/Decode.lean, "
-            "C04_exact_on_decoded_data); uniqueness of the parse "
-            "tree and equality with GLR's tree are oracle comparisons",
+            "C04_exact_on_decoded_data); 'shape' ignores the spans recorded in interior nodes (C08's subject); "
+            "equality with GLR's single tree is an oracle comparison",
     "technique": "Lean 4 proof (stack invariant + walk-back lemma; completeness by validation + simulation) + verified "
                  "checkers and validators on implementation output + model/implementation correspondence",
 }
@@ -37,7 +38,8 @@ PROP = "C04"
 LEVEL = "proof"
 THEOREMS = ["C04_sound", "C04_sound_prefix", "C04_tree_checker_correct", "C04_sentence_oracle_correct",
             "C04_lookahead_is_token_edge",
-            "C04_complete_when_deterministic", "C04_exact_when_deterministic", "det_complete", "detOK_of_bool", "C04_exact_on_decoded_data"]
+            "C04_complete_when_deterministic", "C04_exact_when_deterministic", "det_complete", "detOK_of_bool", "C04_exact_on_decoded_data",
+            "C04_parser_tree_is_the_parse_tree", "C04_unambiguous_when_deterministic"]
 META = {
     "rule": "cases = (grammar, prefer_shifts, prefer_shifts_over_empty, LALR|SLR, input incl. layout variants) for "
             "which Parser() constructs; non-trivial = accepted input with a tree of >= 2 interior nodes, or a "
@@ -48,7 +50,7 @@ META = {
                    "against the verified chart oracle",
     "trusted_base": ["Model/LR.lean, Model/Lex.lean, Model/Table.lean hand-written from parser.py / tables; "
                      "match and skip tables are produced by the real recognizers and _skipws"],
-    "assumptions": ["unambiguity (single parse tree) and GLR = LR tree are compared on the explored scope"],
+    "assumptions": ["GLR = LR tree is compared on the explored scope"],
 }
 
 
